@@ -113,9 +113,9 @@ class DistributeMapper(IdentityMapper):
         from pymbolic.primitives import Sum
 
         newbase = self.rec(expr.base)
-        if isinstance(expr.base, Product):
+        if isinstance(newbase, Product):
             return self.rec(pymbolic.flattened_product([
-                child**expr.exponent for child in newbase
+                child**expr.exponent for child in newbase.children
                 ]))
 
         if isinstance(expr.exponent, int):
